@@ -457,6 +457,8 @@ def part_rebuild(led):
         o.name = 'ply[%s]' % (k.text() if isinstance(k, P) else k)
         o.attrs['t'] = indexed_atom('t', k)
         o.attrs['theta'] = indexed_atom('theta', k)
+        # an arbitrary ply of an existing laminate: it may have been built before (its stiffness then belongs to an EARLIER definition)
+        o.attrs['QL'] = pysym.Opaque('ply stiffness of an earlier build', k=(k.text() if isinstance(k, P) else k))
         o.partial_model = True          # a Lamina of the general stack: attributes not listed here are a gap of the model, not of the program
         return o
     plies = SymList('plies', N, make)
@@ -669,6 +671,78 @@ def part_read_stack(led):
             led.solver_time('z3-feasibility', it.solver_time)
 
 
+def part_update(led):
+    """the public update sequence on an EXISTING laminate: a ply angle and a ply thickness are changed, then Laminate.rebuild() and
+    Laminate.calc_constitutive_matrix() -- the matrices are the integrals of the plies as they are now defined"""
+    func = F + 'laminate.py:Laminate.rebuild'
+    led.function(func)
+    it = mk_interp()
+    mod = it.module('compmech.composite.laminate')
+    f = mod.g['read_stack']
+    N = 2
+    th = [real('th%d' % i) for i in range(N)]
+    ts = [real('t%d' % i) for i in range(N)]
+    mats = [tuple(real('%s_%d' % (n, i)) for n in ('E1', 'E2', 'nu12', 'G12', 'G13', 'G23')) for i in range(N)]
+    for m in mats:
+        it.facts += [to_z3(m[0]) > 0, to_z3(m[1]) > 0]
+    d = real('offset')
+    th_new, t_new = real('th_new'), real('t_new')
+    it.facts += [to_z3(t_new) > 0] + [to_z3(t) > 0 for t in ts]
+
+    def run():
+        lam = it.call(f, [th], dict(plyts=ts, laminaprops=mats, offset=d))
+        plies = lam.attrs['plies']
+        plies[0].attrs['theta'] = th_new
+        plies[1].attrs['t'] = t_new
+        it.call(it.getattr(lam, 'rebuild'), [], {})
+        it.call(it.getattr(lam, 'calc_constitutive_matrix'), [], {})
+        return lam
+    for path, out in it.explore(run):
+        tag = 'after a ply angle and a ply thickness were changed,N=2'
+        if out[0] == 'raise':
+            led.fail('%s[%s]/no-exception' % (func, tag), func, {'raises': out[1].tname, 'args': [str(a) for a in out[1].eargs]}, signature='raise')
+            continue
+        lam = out[1].attrs
+        th2, ts2 = [th_new, th[1]], [ts[0], t_new]
+        T = ts2[0] + ts2[1]
+        z = -T * Fraction(1, 2) + d
+        A = np.zeros((5, 5), dtype=object); B = np.zeros((5, 5), dtype=object); D = np.zeros((5, 5), dtype=object)
+        for i in range(N):
+            arg = th2[i] * shims.PI * Fraction(1, 180)
+            QL = SL.QL_matrix(*mats[i], shims.sym_cos(arg), shims.sym_sin(arg))
+            dA, dB, dD = SL.layer_integrals(QL, z, z + ts2[i])
+            A, B, D = A + dA, B + dB, D + dD
+            z = z + ts2[i]
+        for key, w in {'A': A[:3, :3], 'B': B[:3, :3], 'D': D[:3, :3], 'E': A[3:, 3:], 't': T}.items():
+            h = lam.get(key)
+            name = '%s[%s]/%s' % (func, tag, key)
+            ok, why = values_equal_on_path(h, w, path) if h is not None else (False, 'attribute not set')
+            led.ok(name, func, backend='normal-form(bounded N)') if ok else led.fail(name, func, {'residual': why}, signature='update:' + key, replay=replay_update())
+    led.solver_time('z3-feasibility', it.solver_time)
+
+
+def replay_update():
+    if 'update' in _RC:
+        return _RC['update']
+    from ..pyreplay import run_real
+    script = '''
+import numpy as np
+from compmech.composite.laminate import read_stack
+lp = (142.5e9, 8.7e9, 0.28, 5.1e9, 5.1e9, 5.1e9)
+lam = read_stack([0, 45], plyts=[1.e-4, 2.e-4], laminaprops=[lp, lp])
+lam.plies[0].theta = 30.; lam.plies[1].t = 3.e-4
+lam.rebuild(); lam.calc_constitutive_matrix()
+ref = read_stack([30, 45], plyts=[1.e-4, 3.e-4], laminaprops=[lp, lp])
+out = {'max_rel_deviation_ABD_from_a_fresh_laminate': float(abs(lam.ABD - ref.ABD).max() / abs(ref.ABD).max()), 't': float(lam.t), 't_fresh': float(ref.t)}
+'''
+    r = run_real(script, {})
+    r['reproduced'] = bool(r.get('raised') or (r.get('max_rel_deviation_ABD_from_a_fresh_laminate') or 0) > 1e-9 or abs((r.get('t') or 0) - (r.get('t_fresh') or 0)) > 1e-12)
+    r['input'] = 'read_stack([0,45]); plies[0].theta = 30; plies[1].t = 3e-4; rebuild(); calc_constitutive_matrix()  vs  read_stack([30,45], ...)'
+    r['real_function'] = 'Laminate.rebuild + Laminate.calc_constitutive_matrix'
+    _RC['update'] = r
+    return r
+
+
 def lemma_code_level(led, func, it, f, th, ts, mats, d, lam):
     """consequences named in the statement, checked on the real code for N plies (bounded in N)"""
     N = len(th)
@@ -780,6 +854,7 @@ def body(led):
         led.bounded_item('Laminate.calc_constitutive_matrix: the ply loop is outside the induction schema (%s); only the instances N in {1,2,3} '
                          '(read_stack) and the lemma instances are checked on this tree' % str(e)[:120])
     part_read_stack(led)
+    part_update(led)
     part_spec_lemmas(led)
     # canary: a wrong spec coefficient must be refuted
     ok, _ = values_equal(real('a') * Fraction(1, 3), real('a') * Fraction(1, 2))
